@@ -111,6 +111,11 @@ def run(tier, seed):
         for op in (("ps", 0, phi, 0), ("psP", 1, False, phi), ("psP", 0, True, phi), ("ps", 1, phi, env.L2)):
             xjobs.append((2, (op,)))
 
+    # phases that are numpy scalars other than float64 (elements of integer / float32 arrays), plain and as Parameter
+    for dt, val in (("int64", 2), ("int32", -1), ("uint8", 3), ("float32", 0.5), ("float32", 0.78539816), ("int64", 0)):
+        xjobs.append((2, (("psnp", 0, dt, val),)))
+        xjobs.append((2, (("psnp", 1, dt, val, True), ("bs", 0, 1, env.R2, "Rx", 0))))
+
     # a block without any visible mode, and swaps that move nothing
     for nn in (2, 4):
         for m in range(0, nn + 1):
